@@ -304,6 +304,8 @@ def finding_signature(hist, res):
         return "F9:stale-icc-profile:tj3GetICCProfile"
     if probe and probe[0] == "tb":
         return "F9:stale-icc-profile:tj3TransformBufSize"
+    if probe and probe[0] == "uy" and res.get("ops") and "BADHUFF" in res["ops"][-1].get("st", ""):
+        return "F13:stale-huffman-slot:tj3DecodeYUV8-after-failed-header"
     if probe and probe[0] == "uy":
         try:
             before = (res["ops"][-2]["S"] if len(res["ops"]) >= 2 else res["init"]).split()[1].split(",")
@@ -510,14 +512,14 @@ def to_model_call(idx, toks, res, pre, post, flags):
                     # EOI before any SOS where an image is required: the model raises by itself
                     a.update({"tables_only": 1, "f_soi": E["soi"], "f_sof": E["sof"]})
                     return
-                a.update({"fail": S_HDR, "f_soi": E["soi"], "f_sof": E["sof"], "f_um": E["um"], "tables_only": 0})
+                a.update({"fail": S_HDR, "f_soi": E["soi"], "f_sof": E["sof"], "f_um": E["um"], "tables_only": 0, "f_tables": E["soi"]})
             elif E["gs"] == 202:
                 if kindname == "t":
                     a["fail"] = S_RDCOEF
                     flags["imprecise"] = True
                 elif E["code"] == "CONV":
                     a["fail"] = S_STARTCC
-                elif E["code"] in ("NOHUFF", "NOQUANT"):
+                elif E["code"] in ("NOHUFF", "NOQUANT", "BADHUFF"):
                     a["fail"] = S_START
                 else:
                     a["fail"] = S_START
@@ -566,7 +568,7 @@ def to_model_call(idx, toks, res, pre, post, flags):
         a["fail"] = S_ARGS
         a["bufmode"] = 2
         k = int(toks[1]) % 8
-        return {0: "c.8", 4: "c.8", 1: "d.8.100", 5: "d.8.100", 2: "h.1", 3: "t.1", 6: "dy.1", 7: "ey"}[k], a
+        return {0: "c.8", 4: "c.8", 1: "d.8.100", 5: "d.8.100", 2: "h.10", 3: "t.1", 6: "dy.1", 7: "ey"}[k], a
     if op == "h":
         i, kind, selfc = dec_facts(toks[1])
         dec_fail("h")
@@ -575,7 +577,7 @@ def to_model_call(idx, toks, res, pre, post, flags):
             a.update({"tables_only": 1, "f_soi": 1, "f_sof": post["d"][2]})
         has = 1 if ((rc == 0 or st == "W") and not a.get("tables_only") and post["d"][9] == 1 and (pre["d"][9] == 0 or i in ICC_IDS)) else 0
         a.update({"has_icc": has, "icc_id": 1})
-        return "h.%d" % selfc, a
+        return "h.%d%d" % (selfc, 0 if a["fail"] == S_ARGS else 1), a
     if op in ("d", "dy"):
         ref = toks[2] if op == "d" else toks[1]
         i, kind, selfc = dec_facts(ref)
@@ -602,7 +604,7 @@ def to_model_call(idx, toks, res, pre, post, flags):
                 a["fail"] = S_XTHROW
             elif E and E["side"] == "d" and E["gs"] == 202:
                 a["fail"] = S_STARTCC if E["code"] == "CONV" else S_START
-                if E["code"] not in ("CONV", "NOHUFF", "NOQUANT"):
+                if E["code"] not in ("CONV", "NOHUFF", "NOQUANT", "BADHUFF"):
                     flags["imprecise"] = True
             else:
                 raise Unsupported("stage " + st)
